@@ -150,6 +150,37 @@ def run(ctx):
             else:
                 ctx.notice("Y2", "documented %s-level key %r is accepted but ignored by the interpreter and the serializer" % (level, k))
 
+    # ---- Y4 -----------------------------------------------------------------------
+    ctx.rule("Y4", "registration hands a definition to the interpreter as it was written (no key of it is rewritten)")
+    keys = {"type", "values", "name", "valid_for", "extension", "extension_values"}
+    todo, seen_f = [R.add_commands], set()
+    nst = 0
+    while todo:
+        g = todo.pop()
+        if g.qualname in seen_f:
+            continue
+        seen_f.add(g.qualname)
+        for n in walk_no_nested(g.node):
+            if isinstance(n, ast.Call) and isinstance(n.func, ast.Name) and n.func.id in R.cmod.funcs and R.cmod.funcs[n.func.id] is not R.lookup:
+                todo.append(R.cmod.funcs[n.func.id])
+            if isinstance(n, ast.Assign):
+                for t in n.targets:
+                    if isinstance(t, ast.Subscript) and isinstance(t.slice, ast.Constant) and t.slice.value in keys:
+                        nst += 1
+                        v = n.value
+                        if isinstance(v, ast.Call) and isinstance(v.func, ast.Name) and v.func.id in ("dict", "list", "tuple") and len(v.args) == 1 \
+                                and v.func.id != "list":
+                            v = v.args[0]
+                        same = isinstance(v, ast.Subscript) and isinstance(v.slice, ast.Constant) and v.slice.value == t.slice.value
+                        if not same:
+                            ctx.violation("Y4", g, "definition-rewritten:%s" % t.slice.value, "%s stores %s under the key %r of an argument "
+                                          "definition: the interpreter no longer reads what the command's author wrote (a scalar type and a list "
+                                          "of types are not checked the same way)" % (g.qualname, norm(n.value)[:50], t.slice.value), node=n,
+                                          witness='a registered command whose tag parameter is declared "stringlist" no longer accepts a single string')
+    if not any(f_.rule == "Y4" for f_ in ctx.findings):
+        ctx.holds("Y4", "%s and the %d module function(s) it calls store nothing under the keys %s of a definition"
+                  % (R.add_commands.qualname, len(seen_f) - 1, sorted(keys)))
+
     # ---- Y3 -----------------------------------------------------------------------
     c01.t2(ctx, R)
     c01.t5(ctx, R)
